@@ -483,3 +483,15 @@ Proof.
   destruct (id / 2 ^ 61 <? 0) eqn:E1; [apply Z.ltb_lt in E1; lia|].
   destruct (6 <=? id / 2 ^ 61) eqn:E2; [apply Z.leb_le in E2; lia|]. discriminate.
 Qed.
+
+(** * A decoded full polygon cannot be queried (finding on the unchanged tree) *)
+Lemma decode_usable_full_polygon_refuted :
+  exists bs ls, bytes_ok bs /\ decode_polygon bs = Ok (DCompressed ls) /\ polygon_query_entry ls = Panic.
+Proof.
+  exists [4; 0; 1; 1; 11; 0; 1; 0]. eexists. split; [|split].
+  - repeat constructor; unfold byte_ok; lia.
+  - vm_compute. reflexivity.
+  - vm_compute. reflexivity.
+Qed.
+Lemma polygon_query_entry_not_full ls : cloops_full ls = false -> polygon_query_entry ls = Ok tt.
+Proof. unfold polygon_query_entry. now intros ->. Qed.
